@@ -598,8 +598,15 @@ func (c *Conn) Write(payload []byte) (int, error) {
 	err := c.writeApplicationData(ctx, []*dtlsflight.Packet{
 		c.newApplicationDataPacket(payload),
 	})
-	if errors.Is(err, context.Canceled) && errors.Is(context.Cause(ctx), context.DeadlineExceeded) {
-		return len(payload), dtlserrors.ErrDeadlineExceeded
+	if errors.Is(err, context.Canceled) {
+		switch {
+		case errors.Is(context.Cause(ctx), context.DeadlineExceeded):
+			return len(payload), dtlserrors.ErrDeadlineExceeded
+		case c.isConnectionClosed():
+			// The write was interrupted by Close, not by anything the caller
+			// supplied: report it as what it is.
+			return len(payload), ErrConnClosed
+		}
 	}
 
 	return len(payload), err
